@@ -43,38 +43,5 @@ class Tuner_handle_failure:
         return {"no-failed-trial-listed": not exists(range(0, len(vals)), lambda i: vals[i][1] == "Failed")}
 
 
-# -- synchronous Hyperband: a failed job fills its slot (as NaN) so that the bracket does not wait forever ---
-
-SYNC_HB = "syne_tune.optimizer.schedulers.synchronous.hyperband"
-
-declare_class("SlotInRung", "syne_tune.optimizer.schedulers.synchronous.hyperband_bracket:SlotInRung", dict(rung_index=Int, level=Int, slot_index=Int, trial_id=Opt(Int), metric_val=Opt(NanRealT)), builder="slot")
-declare_class("SyncHB", SYNC_HB + ":SynchronousHyperbandScheduler", dict(bracket_manager=Abstract("SyncBracketManager"), _trials_checkpoints_can_be_removed=List(Int)))
-
-
-@contract("iface:SyncBracketManager.on_result")
-class I_sbm_on_result:
-    params = dict(self=None, result=None)
-    returns = Opt(List(Int, concrete_len=1))
-
-
-@contract(SYNC_HB + ":SynchronousHyperbandScheduler._report_as_failed", props=("C13", "C05"))
-class SyncHB_report_as_failed:
-    params = dict(self=Obj("SyncHB"), bracket_id=Int, slot_in_rung=Obj("SlotInRung"))
-    ghost = GHOST
-    unbounded = False
-    shapes = [{"*": 0}, {"*": 1}]
-
-    def requires(s):
-        return True
-
-    def ensures(old, s, result):
-        calls = [e for e in s.G.log if e[0] == "SyncBracketManager.on_result"]
-        ok = len(calls) == 1
-        if not ok:
-            return {"slot-reported-once": False}
-        bid, slot = calls[0][1]
-        return {
-            "slot-reported-once": True,
-            "same-slot": bid == old.bracket_id and slot.rung_index == old.slot_in_rung.rung_index and slot.level == old.slot_in_rung.level and slot.slot_index == old.slot_in_rung.slot_index and slot.trial_id == old.slot_in_rung.trial_id,
-            "reported-as-failed": is_nan(slot.metric_val),
-        }
+# (the contract for a failed job of synchronous Hyperband -- reported to its bracket as NaN -- lives in contracts/c05.py)
+from contracts.c05 import SyncHB_report_as_failed, I_sbm_on_result  # noqa: F401,E402
